@@ -163,11 +163,12 @@ def _load(src: str, mode: str, rec):
     with scratch("c01-") as d:
         os.makedirs(os.path.join(d, "pk"))
         with open(os.path.join(d, "pk", "__init__.py"), "w") as fh:
-            fh.write('"""Package."""\n')
-        with open(os.path.join(d, "pk", "m.py"), "w") as fh:
-            fh.write(src)
+            fh.write(src if mode == "loadinit" else '"""Package."""\n')      # loadinit: the program is the package's __init__.py
+        if mode != "loadinit":
+            with open(os.path.join(d, "pk", "m.py"), "w") as fh:
+                fh.write(src)
         pkg = g.load("pk", search_paths=[d], allow_inspection=False, extensions=exts)
-        mod = pkg.members["m"]
+        mod = pkg if mode == "loadinit" else pkg.members["m"]
         _ = mod.lines  # read while the files exist (they are stored in the lines collection anyway)
         return mod
 
@@ -229,7 +230,7 @@ def replay_case(case: dict, variant: int, mode: str) -> dict:
     ref = {(m["s"], m["n"]): m for m in case["ref"]}
     # symtable: the names CPython's compiler considers bound in the module / class blocks are the reference's
     if case["wf"]:
-        msg = _symtable_check(src, info, ref, prog)
+        msg = _symtable_check(src, info, ref, prog, set(case.get("submods") or ()))
         if msg:
             out["machinery"] = msg + "\n" + src
             return out
@@ -482,7 +483,7 @@ def _under_init(s, info, prog):
     return info[s]["k"] == "init" or any(prog[a - 1][0] == "init" for a in _anc(s, prog))
 
 
-def _symtable_check(src, info, ref, prog):
+def _symtable_check(src, info, ref, prog, submods=frozenset()):
     try:
         top = symtable.symtable(src, "<c01>", "exec")
     except SyntaxError as exc:
@@ -509,6 +510,8 @@ def _symtable_check(src, info, ref, prog):
         names = {k[1] for k in ref if k[0] == s and k[1] != "zz/*"}
         selfonly = {n for n in names if all(prog[c - 1][0] == "assign" and prog[c - 1][1] in ("self", "selfann") for c in ref[(s, n)]["b"])}
         # a name bound both by self.x in __init__ and at class level is in `bound`; one bound only through self.x is not
+        if s == 0:
+            bound -= submods - names      # `from . import n` in pk/__init__.py: n is the submodule itself, no alias (Visitor.tla SubmoduleImport)
         if bound - names or (names - selfonly) - bound:
             # names whose class-level bindings were all skipped (conditional) cannot happen: the first binding always counts
             return f"reference names of scope {s} {sorted(names)} (instance-only {sorted(selfonly)}) disagree with symtable {sorted(bound)}"
